@@ -22,14 +22,16 @@ import (
 // is used to confirm that nothing the handlers write is missing from this list (see main).
 var restricted = []string{"lockup", "bank", "acc", "superfluid", "incentives"}
 
-type seedPlan struct {
-	Name  string
+// run is one exhaustive exploration: every sequence of at most Depth symbols of Alpha from Seed.
+type run struct {
+	Seed  string
 	Depth int
+	Alpha string // name of the alphabet
 }
 
 type plan struct {
-	Alpha Alphabet
-	Seeds []seedPlan
+	Alphabets map[string]*Alphabet
+	Runs      []run
 }
 
 const (
@@ -38,8 +40,7 @@ const (
 )
 
 func planFor(tier string) plan {
-	p := plan{}
-	p.Alpha = Alphabet{
+	base := &Alphabet{
 		Locks: []Op{
 			{K: "lock", A: "A", Denom: DenomX, Dur: hour, Amt: 100},
 			{K: "lock", A: "B", Denom: DenomX, Dur: hour, Amt: 70},      // shares the accumulation key of the first
@@ -51,16 +52,51 @@ func planFor(tier string) plan {
 		Dts:       []int64{59 * min, hour, hour + 1, 24 * hour},
 		MaxLocks:  4,
 		UnlockAll: true,
+		SetRR:     true,
 	}
+	// wide: everything of base plus a zero-length block, a second partial amount, two-step extension,
+	// begin-unlock by a non-owner and of a never-issued id, receiver reset, an atomic tx whose second
+	// message fails, and one more lock symbol (B on A's 2 h key)
+	wide := &Alphabet{
+		Locks:      append(append([]Op{}, base.Locks...), Op{K: "lock", A: "B", Denom: DenomX, Dur: 2 * hour, Amt: 70}),
+		Partial:    []int64{30, 100},
+		Dts:        []int64{0, 59 * min, hour, hour + 1, 24 * hour},
+		MaxLocks:   4,
+		UnlockAll:  true,
+		SetRR:      true,
+		ExtendTwo:  true,
+		SetRRBack:  true,
+		Foreign:    true,
+		BadTx:      true,
+		GhostProbe: true,
+	}
+	// narrow: the symbols that decide maturity and index bookkeeping, for the deepest runs
+	narrow := &Alphabet{
+		Locks: []Op{
+			{K: "lock", A: "A", Denom: DenomX, Dur: hour, Amt: 100},
+			{K: "lock", A: "B", Denom: DenomX, Dur: hour, Amt: 70},
+			{K: "lock", A: "A", Denom: DenomX, Dur: 2 * hour, Amt: 100},
+		},
+		Partial:  []int64{30},
+		Dts:      []int64{59 * min, hour, 24 * hour},
+		MaxLocks: 3,
+	}
+	p := plan{Alphabets: map[string]*Alphabet{"base": base, "wide": wide, "narrow": narrow}}
 	if tier == "thorough" {
-		p.Alpha.Dts = []int64{0, 59 * min, hour, hour + 1, 24 * hour}
-		p.Alpha.Foreign = true
-		p.Alpha.BadTx = true
-		p.Alpha.GhostProbe = true
-		p.Alpha.SetRRBack = true
-		p.Seeds = []seedPlan{{"empty@119", 5}, {"empty@118", 5}, {"mid@118", 4}, {"matured@119", 4}}
+		p.Runs = []run{
+			{"empty@119", 5, "base"},
+			{"empty@119", 4, "wide"},
+			{"empty@118", 6, "narrow"},
+			{"empty@119", 6, "narrow"},
+			{"mid@118", 4, "base"},
+			{"matured@119", 4, "base"},
+		}
 	} else {
-		p.Seeds = []seedPlan{{"empty@119", 4}, {"mid@118", 3}, {"matured@119", 3}}
+		p.Runs = []run{
+			{"empty@119", 4, "base"},
+			{"mid@118", 3, "base"},
+			{"matured@119", 3, "base"},
+		}
 	}
 	return p
 }
@@ -223,18 +259,21 @@ func main() {
 			}
 		}
 	}
-	sc := &core.Scenario[Op, *Ledger]{
-		App: w.App, Stores: stores, Config: cfg,
-		Enabled:   w.Enabled(&pl.Alpha),
-		Apply:     w.Apply,
-		Check:     check,
-		LedgerKey: func(l *Ledger) []byte { return l.Key() },
-	}
 	allSeen := core.NewSeen()
-	var seedNames []string
-	for si, sp := range pl.Seeds {
-		seedNames = append(seedNames, fmt.Sprintf("%s:depth=%d", sp.Name, sp.Depth))
-		ctx, l, ok := buildSeed(w, sp.Name, func(base string, ops []Op, a, d string) {
+	var runNames []string
+	minDepth := 0
+	for ri, rn := range pl.Runs {
+		name := fmt.Sprintf("%s/depth=%d/alphabet=%s", rn.Seed, rn.Depth, rn.Alpha)
+		runNames = append(runNames, name)
+		t0, tr0 := time.Now(), r.Transitions
+		sc := &core.Scenario[Op, *Ledger]{
+			App: w.App, Stores: stores, Config: cfg,
+			Enabled:   w.Enabled(pl.Alphabets[rn.Alpha]),
+			Apply:     w.Apply,
+			Check:     check,
+			LedgerKey: func(l *Ledger) []byte { return l.Key() },
+		}
+		ctx, l, ok := buildSeed(w, rn.Seed, func(base string, ops []Op, a, d string) {
 			if f.Shard == 0 {
 				r.AddViolation(core.Violation{Property: f.Prop, Assertion: a, Detail: d, Signature: sig(base, ops), Replay: replayFile{Config: cfg, Seed: base, Ops: ops}})
 			}
@@ -243,23 +282,48 @@ func main() {
 			continue // never silently: the violation above is reported
 		}
 		ex := core.NewExplorer(sc, f, r)
-		ex.Run(sp.Name, ctx, l, sp.Depth)
+		r.DepthCompleted = 0
+		ex.Run(rn.Seed, ctx, l, rn.Depth)
+		if r.DepthCompleted == rn.Depth {
+			r.Extra[fmt.Sprintf("sum_runs_completed[%s]", name)] = 1
+		} else {
+			r.Extra[fmt.Sprintf("sum_runs_completed[%s]", name)] = 0
+		}
+		if r.DepthCompleted == rn.Depth && rn.Depth > minDepth {
+			minDepth = rn.Depth
+		}
+		r.Extra[fmt.Sprintf("sum_transitions[%s]", name)] = r.Transitions - tr0
+		r.Extra[fmt.Sprintf("sum_wall_s[%s]", name)] = time.Since(t0).Seconds()
 		for k := range ex.Seen {
 			var h [32]byte
 			copy(h[:], k[:])
-			h[15] ^= byte(si + 1) // seeds are explored separately; keep their state sets apart in the union
+			h[15] ^= byte(ri + 1) // runs are explored separately; keep their state sets apart in the union
 			allSeen.Add(h)
 		}
 	}
+	// depth_completed reports the deepest run that finished; per-run completion is in sum_runs_completed[..]
+	// (it must equal the number of shards for a run to have been enumerated completely)
+	r.DepthCompleted = minDepth
 	allSeen.Dump(f.HashOut)
-	bz, _ := json.Marshal(pl.Alpha)
-	r.Extra["alphabet"] = string(bz)
-	r.Extra["seeds"] = seedNames
+	used := map[string]*Alphabet{}
+	for _, rn := range pl.Runs {
+		used[rn.Alpha] = pl.Alphabets[rn.Alpha]
+	}
+	bz, _ := json.Marshal(used)
+	r.Extra["alphabets"] = string(bz)
+	r.Extra["runs"] = runNames
+	seedOps := map[string]interface{}{}
+	for _, rn := range pl.Runs {
+		h, ops := seedDef(rn.Seed)
+		seedOps[rn.Seed] = map[string]interface{}{"start_height": h, "ops": ops}
+	}
+	r.Extra["seed_states"] = seedOps
 	r.Extra["hashed_stores"] = *storesFlag
 	if len(diff) > 0 {
 		r.Extra["stores_differing_within_restricted_classes"] = diff
 	}
 	r.Extra["max_queries_per_state"] = w.maxQueries
+	r.Extra["max_accumulation_filed_under_empty_denom_F6"] = w.maxEmptyDenomAcc
 	r.Extra["sum_queries_compared"] = w.sumQueries
 	r.Outcomes = int64(len(r.Rejected) + 1)
 	core.Finish(f, r)
